@@ -412,6 +412,9 @@ static void do_step(const Step &st) {
   } else if (op == "fault") {   // fault <k> [kind]: inject an LPC error at the k-th instruction from now
     S.fault_countdown = atol(st.a[0].c_str());
     S.fault_kind = st.a.size() > 1 ? st.a[1] : "error";
+  } else if (op == "firetimer") {  // firetimer <k> <dt_us>: the timer thread fires in the middle of an evaluation, k instructions from now
+    S.timer_countdown = atol(st.a[0].c_str());
+    S.timer_dt = st.a.size() > 1 ? atol(st.a[1].c_str()) : 2000000;
   } else if (op == "shutdown") {
     g_proceeding_shutdown = 1;
   } else {
